@@ -11,6 +11,10 @@ spec/Route:
 Pipeline: MC -> generate graphs+requests -> real graph DB + findPath + newRoute (harness/routing/c19_test.go)
           -> TLC trace validation -> negative controls (one corrupted field per ValidRoute clause).
 Integers: all generated amounts <= ~1.2e5 msat and |rates| <= 1e4 ppm, so products stay below 2^31 (TLC).
+Violation keys: route:<clause invariant>:hops<n>[:feelimit][:cltvlimit][:outchans]; the replay dir holds the graph line and
+the offending query (./vcheck C19 --replay <dir> re-judges it).
+Knobs: C19_GRAPHS (graphs per run), C19_SKIP_MC=1, C19_MC_UNIVERSES=small,rich,line4, C19_WORKERS (TLC workers for MC,
+default 4), C19_OVERLAY=rel=patched[,..] or VERIF_MUTATION=<diff> for mutation controls (mutations/C19/*.diff).
 """
 import copy
 import os
